@@ -180,6 +180,32 @@ def main():
                 if mb != calls:
                     ck.mismatch("FFRUN", {"calls": hist_json}, calls, mb)
                 ck.count("histories")
+        # ---- the id tables of the reader (fresh assigner on the bundled files): model vs code, and the table-level oracle
+        ffh._global_assignment_class = None
+        ffh._global_nonbonded_itp_file = None
+        ffh._global_smarts_rule_file = None
+        assigner = ffh.get_assignment_class(None, None)
+        out = ck.driver.run([{"op": "FFREAD", "rules": rules_json}])[0]
+        names = {v: k for k, v in type_ids.items()}
+        m_dict = {names[a]: b for a, b in out["type_dict"]}
+        m_rev = {a: names[b] for a, b in out["type_rev"]}
+        if m_dict != dict(assigner._type_dict) or m_rev != dict(assigner._type_dict_rev):
+            bad = [k for k in assigner._type_dict if m_dict.get(k) != assigner._type_dict[k]][:5]
+            ck.mismatch("FFREAD", {"file": "opls.par"}, {k: assigner._type_dict[k] for k in bad}, {k: m_dict.get(k) for k in bad})
+        last_type = {}
+        for _, t, r in read_opls_rules():
+            last_type[r] = t
+        for rule, t in last_type.items():
+            ck.evaluations += 1
+            try:
+                got = assigner.get_ffparam(assigner.get_type(assigner._rule_dict[rule]))
+            except Exception as exc:
+                ck.fail("rule-without-parameters", {"rule": rule, "type": t}, f"{type(exc).__name__}: {exc}")
+                continue
+            if got is not assigner._type_param.get(t):
+                other = type_name(assigner, got)
+                ck.fail("rule-resolves-to-another-type", {"rule": rule, "type": t}, f"rule of type {t} is given the parameters of {other} (mass {got.mass})")
+        ck.count("rules_resolved", len(last_type))
         # partially generated molecules are refused
         for t in ["CC{[>][<]CC[>][<]}|uniform(20, 90)|", "{[][<]COC[>]; [<]C [>]}|uniform(40, 200)|"]:
             with warnings.catch_warnings():
